@@ -22,13 +22,13 @@ META = {
    note="pi_lmo5 / pi_lmo_parallel / pi_deleglise_rivat / pi_gourdon compositions are proved (C02Top, C02TopLmo) modulo the named contracts listed under C01; Gourdon for 2 <= x < 2401 (get_k < 4) is covered by the exhaustive streams only. int64 overflow freedom of accumulators: C16Safety*."),
  "C03": dict(ref="6.3", technique="Lean 4 proof (dispenser totality over all event lists, reductions under permutation) + trace acceptance",
    text="For every event list (any worker count, order, clock trace) accepted by the L2 step relation the chunks partition the range and the accumulated sum is the sum of an additive per-chunk function; reductions are permutation invariant; an atomic counter hands out each index once. Real balancer objects are driven by simulated workers and every recorded history must be accepted.",
-   note="Proved for every accepted history / schedule: P2, B (C03P2), S1, Phi0 (C03Leaf), S2_hard, D regions (C03Hard: any LoadBalancerS2 history gives Spec.S2_hard / Spec.D), S2_easy (any distribution of the atomic counter). Mutual exclusion of omp locks, OpenMP reductions/barriers and std::atomic are trusted runtime semantics; AC's segment additivity is proved per kernel (A, C2), C1 by correspondence."),
+   note="Proved for every accepted history / schedule: P2, B, S1, Phi0, S2_easy, S2_hard, D, AC regions; C03Closed: two executions of the closed world that share nothing (threads, print, runs, clock traces) return equal counts. Mutual exclusion of omp locks, OpenMP reductions/barriers and std::atomic are trusted runtime semantics (each region is assumed to produce SOME accepted history)."),
  "C04": dict(ref="6.4", technique="Lean 4 proof (clamps for every float outcome, parameter-independent identities) + correspondence",
    text="The clamps yield x^(1/3) < y <= z < x^(1/2) for EVERY value of the two float products (x >= 64); the leaf decomposition and the Gourdon/DR identities are proved for every admissible (y, z, k), so a returned count cannot depend on alpha. Counts under alpha grids are compared with the oracle and the derived parameters with the Lean clamps fed with the implementation's alpha bit patterns.",
-   note="alpha (libm log) enters as a bit pattern; float envelopes for casts are assumptions."),
+   note="C04Closed: pi_gourdon / pi_deleglise_rivat / pi under any two admissible tunings return the same count (outcomes: pi(x), or the range error exactly when x exceeds get_max_x of that tuning); alpha (libm log) enters as a bit pattern; float envelopes for casts are named hypotheses evaluated on every sample."),
  "C05": dict(ref="6.5", technique="Lean 4 proof (window oracle = pi(b) - pi(a)) + correspondence",
    text="windowPrimes is proved to equal pi(b) - pi(a); increments of the implementation over windows up to 1e16 (2^63 in thorough) are compared with it.",
-   note="as C01"),
+   note="C05Closed: pi_increment_counts_primes as a corollary of the closed end-to-end theorem (also across the int64 boundary); a shift of pi that is constant over every explored window is invisible to the sampled half of this check (see C01 / C17)."),
  "C06": dict(ref="6.6", technique="Lean 4 proof (walk from an arbitrary approximation reaches the n-th prime) + correspondence",
    text="nth_prime's search is proved to return the n-th prime for every approximation of R^-1 and both walk directions, over the REAL iterator model of the bundled primesieve (nth_prime_cpp_correct: every 1 <= n <= max_n, every approximation in [0, 2^63), every hint and float outcome), incl. the C wrapper (-1 exactly on domain errors) and the CLI narrowing; table entries are kernel-checked obligations generated from the source.",
    note="named hypotheses: GenSpec (sieving core: proved in C18CoreContract, wiring in progress), pi = pi on int64 (C01Top), pi_cache (C17), RiemannR_inverse returns a value in [0, 2^63), the literature constant p(max_n) < 2^63."),
@@ -51,8 +51,8 @@ META = {
    text="isqrt/iroot/ct_sqrt proved exact floors for EVERY floating point estimate and every width, with no intermediate leaving its type; parameter clamps proved for all float outcomes; real header functions compared at k^n-1,k^n,k^n+1, rounding cliffs and random points.",
    note="float envelopes for (int64_t)(x13*alpha) are named hypotheses evaluated on every sample; maxx_default above 2^93 is validated, not proved (maxx_default_partial). The tuning setters are defined for every double (set_alpha_total; finding F6 repaired)."),
  "C13": dict(ref="6.13", technique="Lean 4 proof (checked evaluator sound w.r.t. exact AST evaluation) + grammar-based correspondence",
-   text="toMaxint s = ok v implies the AST of s evaluates exactly to v with every intermediate in range; digit pre-check, division by zero and trailing garbage proved rejected; the 64-bit command-line options hand over exactly the value of the expression or reject it (cli64_exact, cli64_rejects_outside).",
-   note="AST = documented grammar is validated by a reference parser, not proved; isspace/locale trusted. Findings F2, F7 (exception type of pi(string)), F8 (CLI int64 narrowing) repaired in /repo."),
+   text="toMaxint s = ok v iff s is a sentence of the DOCUMENTED grammar (operator table with precedences and associativities, unary operators, parentheses, literals) whose exact value and every intermediate are representable, and then v is that value (documented_value; calcTree_is_documented: the shift/reduce loop builds exactly the documented tree for every byte string; grammar_unambiguous); digit pre-check, division by zero and trailing garbage proved rejected; the 64-bit command-line options hand over exactly the value of the expression or reject it (cli64_exact, cli64_rejects_outside).",
+   note="the reading of calculator.hpp's header comment as the inductive grammar Doc (112 lines, PcProofs/CalcGrammarSpec.lean) is the part to audit; the table is tied to the C++ switch by a generated obligation; the repaired arithmetic is stricter than InRange on two corner shapes (0-1<<1, MIN % -1: rejected); isspace/locale trusted. Findings F2, F7, F8 repaired in /repo."),
  "C14": dict(ref="6.14", technique="Lean 4 proof (buffer contract of primecount_pi_str, wrapper equations) + generated try/catch obligation + ASan canary correspondence",
    text="cPiStr_bounds/error/len/terminated and cWrap_eq are proved for all (x?, res?, len); the translator regenerates the list of extern C functions and the kernel checks that each body is try/catch(std::exception) and that every thrown type derives from it.",
    note="len <= 2^31; non-std exceptions absent by generated obligation; stack exhaustion outside."),
@@ -73,7 +73,7 @@ META = {
    note="real analysis and long double not formalised."),
  "C20": dict(ref="6.20", technique="Lean 4 proof (API state machine: clamps, resets, state-independence) + generated globals obligation + history correspondence",
    text="threads clamp, alpha reset and failed-call state preservation proved for all histories; the set of mutable globals and their writers is regenerated from the source and kernel-checked against the modelled state; seeded call histories run in one process against fresh-process values.",
-   note="result_state_independent holds under the named hypothesis AlgConfigIndependent (discharged by C01/C03/C04/C06/C07 theorems)."),
+   note="AlgConfigIndependent is now a theorem (C20Closed.alg_config_independent_closed) over the closed models; pi('x') for x between the get_max_x of two tunings legitimately depends on the tuning state (range error) — the theorems are stated on the accepted domain."),
 }
 
 
